@@ -2,7 +2,7 @@
 import re
 
 from mirlib import AnchorMissing, path_matches, op_place
-from helpers import aggregates, calls_matching, vexpr, enum_switches, arm, edge_region, branches_on_call
+from helpers import aggregates, calls_matching, vexpr, enum_switches, arm, edge_region, branches_on_call, loop_of
 import perfile
 from props import c05
 
@@ -259,6 +259,26 @@ def r_emitted_is_updated(r, prog):
 import decisions
 
 
+def r_request_file_from_file_alone(r, prog):
+    """What a file contributes to the generator request is computed from that file alone: the value pushed onto the source / reference
+    sequence is a one-argument conversion of the loop's element. A converter object (or any other argument) that lives across the files of
+    a request lets one file's encoded content depend on which files were converted before it - on argument order."""
+    import decisions
+    try:
+        host, via = decisions.request_partition_host(prog)
+    except AnchorMissing:
+        host = prog.fn('slicec_bin::encode_generate_code_request')       # no `SliceFile::from(file)` any more: look at what is pushed instead
+    pushes = [c for c in host.calls() if c.name() == 'push' and not host.blocks[c.bb].get('cleanup') and loop_of(host, c.bb) is not None]
+    if len(pushes) < 2:
+        raise AnchorMissing('pushes of converted files (found %d)' % len(pushes))
+    vals = sorted({vexpr(host, c.args[1]) for c in pushes})
+    if len(vals) == 1 and re.match(r'^\w+\(next\(into_iter\(arg\d\)\) as Some\.0\)$', vals[0]):
+        r.ok('every file of the request is %s: a function of that file only' % vals[0])
+    else:
+        r.finding('request-file-conversion-shares-state', pushes[0].span, 'the files of the request are converted as %s: the conversion takes more than the file itself, so what one file encodes to can depend on the files converted before it' % vals)
+    r.floor(1)
+
+
 def run(ctx):
     prog = ctx.prog
     ctx.run_rule('C15.1a', 'T1', 'no hash container is iterated or debug-printed', r_no_hash_iteration, prog)
@@ -275,5 +295,6 @@ def run(ctx):
     ctx.run_rule('C15.6', 'T2', 'whether the inputs are compiled does not depend on how they are split between sources and references', _c07.r_every_input_compiled, prog)
     ctx.run_rule('C15.2c', 'T1', 'which element a name denotes does not depend on the order of the files: definitions are last-writer-wins, a module never takes a name', _c03.r_name_table_single_writer, prog)
     ctx.run_rule('C15.4e', 'T13', 'what a type reference resolves to is worked out from that reference under the recorded conditions (the ledger of the type patcher: a step that is skipped because an earlier reference was resolved - a memo across references - shows as a moved or missing site)', _c03.r_patcher_preconditions, prog)
+    ctx.run_rule('C15.5c', 'T10', 'each file of the generator request is converted from that file alone', r_request_file_from_file_alone, prog)
     ctx.run_rule('C15.2b', 'T1', 'the table of seen definitions is written only by the step that also checks and reports', r_symmetric_redefinition_table, prog)
     ctx.run_rule('C15.5', 'T10', 'the diagnostics emitted and counted are exactly what into_updated returned', r_emitted_is_updated, prog)
